@@ -46,6 +46,19 @@ def run_e2e(args):
                 import gc, time
                 gc.collect(); time.sleep(0.05)
                 rec["runs"].append({"T": T, "kind": "drop", "k": k, "got": part, "threads_alive": len(os.listdir("/proc/self/task")) - base_threads})
+        # repeating streams whose epoch is tiny: the first k shards with k = 1, 2 (one shard of one example when eps = 1) — the Rust
+        # reader and the Python reader yield the same endless stream (prefix of 7), also with a single example per epoch
+        try:
+            import itertools as _it
+            for k in (1, 2):
+                want = [sp.ident(e) for e in _it.islice(ds.as_numpy_iterator(split="train", repeat=True, shuffle=0, shards=k), 7)]
+                for T in (1, 3):
+                    it = ds.as_numpy_iterator_rust(split="train", repeat=True, shuffle=0, shards=k, file_parallelism=T)
+                    got = [sp.ident(e) for e in _it.islice(it, 7)]
+                    it.close()
+                    rec["runs"].append({"T": T, "kind": "repeat-small", "k": k, "got": got, "want": want})
+        except BaseException as e:  # noqa: BLE001
+            rec["runs"].append({"T": 1, "kind": "repeat-small", "k": 0, "got": [], "want": ["?"], "error": f"{type(e).__name__}: {str(e)[:150]}"})
         # attribute layouts: several attributes, scalars, declared dtypes with an explicit byte order — every value bit for bit
         try:
             from sedpack.io import Attribute
@@ -272,7 +285,7 @@ def run(ctx):
     cases = []
     for i in range(ctx.pick(3, 8)):
         comp = ["", "LZ4", "GZIP", "ZLIB"][i % 4]
-        eps = rng.choice([1, 2, 3])
+        eps = 1 if i == 0 else rng.choice([1, 2, 3])          # (the first case: one example per shard, so a one-shard epoch is a one-example epoch)
         plan = [{"sub": ".", "writes": [(0, rng.choice([1, eps, 2 * eps + 1, 4 * eps + 1, 7 * eps]))]}]
         if i % 2:
             plan.append({"sub": "a", "writes": [(0, eps + 1)]})      # uneven shard sizes, nested lists
@@ -290,6 +303,10 @@ def run(ctx):
                 if not run_["same"]:
                     ctx.report(dict(sig, what="attribute-values"), f"the Rust reader and the Python reader disagree on attribute values (several attributes, explicit byte-order dtypes): {json.dumps(run_['first_diff'])[:300]}",
                                {"case": r["case"], "run": run_})
+                continue
+            if run_["kind"] == "repeat-small":
+                if run_["got"] != run_["want"]:
+                    ctx.report(dict(sig, what="repeat"), f"repeating stream over the first {run_['k']} shard(s), {run_['T']} threads: Rust reader {run_['got']} vs Python reader {run_['want']}", {"case": r["case"], "run": run_})
                 continue
             if run_["kind"] == "overlap3":
                 if run_["got"] != run_["want"]:
